@@ -21,6 +21,8 @@ TECHNIQUE = "static analysis: FORWARD-ALL / OVERRIDE⇒DECLARE sibling rules, do
 TRAITS = {"Brancher": "branching::brancher::Brancher",
           "VariableSelector": "branching::variable_selection::variable_selector::VariableSelector",
           "ValueSelector": "branching::value_selection::value_selector::ValueSelector"}
+# which_trait also recognises the propagator trait so that C09 can reuse the FORWARD-ALL helpers
+ALL_TRAITS = dict(TRAITS, Propagator="engine::cp::propagation::propagator::Propagator")
 OBSERVATIONAL = {"log_statistics"}
 EVENT_OF = {"on_conflict": "Conflict", "on_backtrack": "Backtrack", "on_solution": "Solution",
             "on_unassign_integer": "UnassignInteger",
@@ -50,7 +52,7 @@ def impls(lib, short):
 
 
 def which_trait(path):
-    for s in TRAITS:
+    for s in ALL_TRAITS:
         if path and path.endswith("::" + s):
             return s
     return None
